@@ -179,9 +179,12 @@ var atomModel = porcupine.Model{
 }
 
 type c09World struct {
-	s       *Sim
-	env     types.EnvType
-	threads []*c09Thread
+	s         *Sim
+	env       types.EnvType
+	threads   []*c09Thread
+	finalizer *Task
+	finals    []*c09Op
+	finalCtx  context.Context
 }
 
 func (w *c09World) taskFn(idx int) func(*Task) {
@@ -195,6 +198,33 @@ func (w *c09World) taskFn(idx int) func(*Task) {
 			} else {
 				w.s.Rec("ret", op.ID, canonValQuiet(res), 0)
 			}
+		}
+	}
+}
+
+// othersDone: every task except the finalizer has ended (evaluated by the scheduler while nobody runs).
+//
+//go:norace
+func (w *c09World) othersDone() bool {
+	for _, t := range w.s.tasks {
+		if t != w.finalizer && t.state != tsDone {
+			return false
+		}
+	}
+	return true
+}
+
+// finalFn reads every atom once more after all operations have returned - as one more simulated caller,
+// so that an atom left locked by a failed update shows up as a hang and not as a stalled harness.
+func (w *c09World) finalFn(t *Task) {
+	w.s.WaitUntil("all-operations-returned", w.othersDone)
+	for _, op := range w.finals {
+		w.s.Rec("inv", op.ID, "", 0)
+		res, err := lisp.EVAL(w.finalCtx, op.ast, w.env)
+		if err != nil {
+			w.s.Rec("ret", op.ID, canonErrQuiet(err), 1)
+		} else {
+			w.s.Rec("ret", op.ID, canonValQuiet(res), 0)
 		}
 	}
 }
@@ -287,6 +317,16 @@ func (c09) Run(tp *Tape, opt RunOpt) *RunOut {
 	for ti := range w.threads {
 		s.Go("thread"+strconv.Itoa(ti), w.taskFn(ti))
 	}
+	for ai := 0; ai < nAtoms; ai++ {
+		op := &c09Op{ID: "final." + strconv.Itoa(ai), Kind: "deref", Atom: ai, Src: "@" + atomName(ai)}
+		op.ast = mustRead(op.Src)
+		ops[op.ID] = op
+		w.finals = append(w.finals, op)
+	}
+	fctx, fcancel := context.WithCancel(context.Background())
+	s.AddCancel(fcancel)
+	w.finalCtx = fctx
+	w.finalizer = s.Go("finalizer", w.finalFn)
 	s.Run()
 	simhook.Install(nil)
 	out.collect(s)
@@ -486,19 +526,6 @@ func (c09) Run(tp *Tape, opt RunOpt) *RunOut {
 	}
 
 	if s.Aborted == "" {
-		// final values, read after quiescence
-		finalSeq := s.seq + 1000
-		for ai := 0; ai < nAtoms; ai++ {
-			v, err := lisp.EVAL(context.Background(), mustRead("@"+atomName(ai)), e)
-			r := &opRec{atom: ai, in: atomIn{Kind: "deref"}, call: finalSeq, ret: finalSeq + 1, done: true, label: "final @" + atomName(ai)}
-			finalSeq += 2
-			if err != nil {
-				r.out = canonErr(err)
-			} else {
-				r.out = canon(v)
-			}
-			recs = append(recs, r)
-		}
 		for ai := 0; ai < nAtoms; ai++ {
 			var pops []porcupine.Operation
 			for i, r := range recs {
